@@ -76,6 +76,11 @@ def main(tier):
         chk.nontrivial.add(json.dumps([sorted(ban), m["doc"], form], sort_keys=True))
         occurs = sorted(set(ban) & used)
         bad = None
+        if a["outcome"] != "ok":
+            # the macro/include form is not accepted even without the option (e.g. a path-bearing
+            # method after a URL inside a parenthesised macro): nothing to judge
+            chk.extra["forms_rejected_without_option"] = chk.extra.get("forms_rejected_without_option", 0) + 1
+            continue
         sig = {"ban": ",".join(occurs) or "none", "form": form}
         if occurs:
             hit += 1
